@@ -314,3 +314,105 @@ theorem inv_copyEntry (src : List Snap) (a : Args) (srcSub : List Snap) (srcRel 
           exact inv_putFile src a e _ s2 s' he h2 hfr hs
 
 end Fsm.C15L
+
+namespace Fsm.C15L
+open C
+
+theorem inv_append_tree (src : List Snap) (s : St) (t : List C.Node) (p : Path) (hf : findN t p = none) (nd : C.Node) (hp : nd.path = p)
+    (h : Inv src { s with tree := t }) : Inv src { s with tree := t ++ [nd] } := by
+  have := inv_append src { s with tree := t } nd (by intro n hn; rw [hp]; exact findN_none hf n hn) s.notif h
+  exact inv_congr src _ _ rfl rfl this
+
+/-- MkdirAll appends directories at paths where nothing stands -/
+theorem inv_mkdirAll_go (src : List Snap) (a : Args) (s : St) :
+    ∀ (cs : List Path) (cur : Path) (t t' : List C.Node), Inv src { s with tree := t } →
+      mkdirAll.go a cs cur t = .ok t' → Inv src { s with tree := t' } := by
+  intro cs
+  induction cs with
+  | nil => intro cur t t' h hs; simp only [mkdirAll.go] at hs; cases hs; exact h
+  | cons c rest ih =>
+    intro cur t t' h hs
+    simp only [mkdirAll.go] at hs
+    split at hs
+    · split at hs
+      · exact ih _ t t' h hs
+      · cases hs
+    · rename_i hf
+      refine ih _ _ t' ?_ hs
+      exact inv_append_tree src s t _ hf _ rfl h
+
+theorem inv_mkdirAll (src : List Snap) (a : Args) (s : St) (p : Path) (t' : List C.Node) (h : Inv src s)
+    (hs : mkdirAll a s.tree p = .ok t') : Inv src { s with tree := t' } := by
+  unfold mkdirAll at hs
+  exact inv_mkdirAll_go src a s _ _ s.tree t' (inv_congr src _ _ rfl rfl h) hs
+
+end Fsm.C15L
+
+namespace Fsm.C15L
+open C
+
+theorem inv_foldlM_mem {α : Type} (src : List Snap) (f : St → α → Except String St) :
+    ∀ (l : List α), (∀ x ∈ l, ∀ s s', Inv src s → f s x = .ok s' → Inv src s') →
+      ∀ (s s' : St), Inv src s → l.foldlM f s = .ok s' → Inv src s' := by
+  intro l
+  induction l with
+  | nil => intro _ s s' h hs; simp [List.foldlM, pure, Except.pure] at hs; cases hs; exact h
+  | cons x rest ih =>
+    intro hf s s' h hs
+    rw [List.foldlM_cons] at hs
+    cases hstep : f s x with
+    | error w => rw [hstep] at hs; simp [bind, Except.bind] at hs
+    | ok s1 =>
+      rw [hstep] at hs
+      simp only [bind, Except.bind] at hs
+      exact ih (fun y hy => hf y (List.mem_cons_of_mem _ hy)) s1 s' (hf x (List.mem_cons_self ..) s s1 h hstep) hs
+
+/-- the entry that stands for the source root itself -/
+def rootSnap : Snap :=
+  { st := { path := [], mode := modeDir ||| 493, uid := 0, gid := 0, size := 0, mtime := 1500000000000000000, linkname := [],
+            devmajor := 0, devminor := 0 }, ino := 0, nlink := 2 }
+
+/-- a path- and content-preserving map of the tree, whatever happens to the other fields that the invariant does not read -/
+theorem inv_map' (src : List Snap) (s : St) (t : List C.Node) (f : C.Node → C.Node) (hp : ∀ n, (f n).path = n.path) (hs : ∀ n, (f n).sha = n.sha)
+    (nf : List (Path × Bool)) (ld : List Path) (h : Inv src { s with tree := t }) :
+    Inv src { tree := t.map f, notif := nf, inodes := s.inodes, lazyDone := ld } :=
+  inv_congr src _ _ rfl rfl (inv_map src { s with tree := t } f hp hs h)
+
+theorem ite_mtime_path (c : Prop) [Decidable c] (n : C.Node) (m : Option Int) : (if c then { n with mtime := m } else n).path = n.path := by
+  by_cases hc : c <;> simp [hc]
+
+theorem ite_mtime_sha (c : Prop) [Decidable c] (n : C.Node) (m : Option Int) : (if c then { n with mtime := m } else n).sha = n.sha := by
+  by_cases hc : c <;> simp [hc]
+
+theorem inv_ite_map (src : List Snap) (s : St) (t : List C.Node) (c : Prop) [Decidable c] (f : C.Node → C.Node)
+    (hp : ∀ n, (f n).path = n.path) (hs : ∀ n, (f n).sha = n.sha)
+    (nf : List (Path × Bool)) (ld : List Path) (h : Inv src { s with tree := t }) :
+    Inv src { tree := if c then t.map f else t, notif := nf, inodes := s.inodes, lazyDone := ld } := by
+  by_cases hc : c
+  · rw [if_pos hc]; exact inv_map' src s t f hp hs nf ld h
+  · rw [if_neg hc]; exact inv_congr src _ _ rfl rfl h
+
+/-- one source of the call (landing rule, MkdirAll of the parents, every entry below it) keeps the invariant -/
+theorem inv_copyOne (a : Args) (srcTree : List Snap) (srcRel srcArg dstRel : Path) (s0 s' : St)
+    (h : Inv (rootSnap :: srcTree) s0) (hs : copyOne a srcTree srcRel srcArg dstRel s0 = .ok s') : Inv (rootSnap :: srcTree) s' := by
+  unfold copyOne at hs
+  split at hs
+  · cases hs
+  · simp only at hs
+    split at hs
+    · cases hs
+    · rename_i t2 hmk
+      have h2 : Inv (rootSnap :: srcTree) { s0 with tree := t2 } := inv_mkdirAll _ a s0 _ t2 h hmk
+      refine inv_foldlM_mem (rootSnap :: srcTree) _ _ ?_ _ s' ?_ hs
+      · intro e he s s1 hi hstep
+        refine inv_copyEntry (rootSnap :: srcTree) a _ _ _ s s1 e ?_ hi hstep
+        rcases List.mem_append.mp he with hr | hsub
+        · split at hr
+          · simp only [List.mem_singleton] at hr; rw [hr]; exact List.mem_cons_self ..
+          · cases hr
+        · exact List.mem_cons_of_mem _ (List.mem_filter.mp hsub).1
+      · refine inv_ite_map (rootSnap :: srcTree) s0 t2 _ _ ?_ ?_ _ _ h2
+        · intro n; exact ite_mtime_path _ n _
+        · intro n; exact ite_mtime_sha _ n _
+
+end Fsm.C15L
